@@ -194,3 +194,17 @@ VARIANTS += [
          [(UNI, "        except (ValueError, MemoryError, OverflowError) as exc:\n", "        except MemoryError as exc:\n")],
          ("C16.37", "_make_subcircuit:state-vector-allocation"), ("C16",)),
 ]
+
+_CACHE = ("            touched = 0\n            for i_k in qind:\n                touched |= 1 << i_k\n            try:\n                col_offsets = offsets[touched]\n            except KeyError:\n                col_offsets = []\n                for j_k in qind:\n                    col_offsets.append(1 << j_k)\n                offsets[touched] = col_offsets\n")
+
+VARIANTS += [
+    # ---- C03.16 (expected count zero on the pinned tree: this is the positive control)
+    fire("r13-emulator-cache-keyed-by-bitmask",
+         [(UNI, "        vec[0] = 1\n", "        vec[0] = 1\n        offsets = {}\n"),
+          (UNI, "            vec[:] = 0\n", "            vec[:] = 0\n" + _CACHE)],
+         ("C03.16", "_make_subcircuit:cache:offsets"), ("C03",)),
+    silent("r13-emulator-cache-keyed-by-the-ordered-operands",
+           [(UNI, "        vec[0] = 1\n", "        vec[0] = 1\n        offsets = {}\n"),
+            (UNI, "            vec[:] = 0\n", "            vec[:] = 0\n" + _CACHE.replace("            touched = 0\n            for i_k in qind:\n                touched |= 1 << i_k\n", "            touched = tuple(qind)\n"))],
+           ("C03",)),
+]
